@@ -175,100 +175,89 @@ def _second_solver(text):
     return res
 
 
-def run_task(task):
-    modname, cidx, shard, tier, seed, opts = task
+def _new_stats(case_name):
+    return {"case": case_name, "paths": 0, "queries": 0, "solver_s": 0.0,
+            "labels": {}, "violations": [], "status": "exhausted",
+            "obligations": 0, "discharged": 0, "crossval": 0, "samples": [],
+            "second": {"checked": 0, "agree": 0}, "notes": {}, "nontrivial": 0,
+            "wall_s": 0.0, "items": 0, "errors": []}
+
+
+def run_item(case, root, tier, seed, opts, out, donate=None):
+    """Explore the subtree of `case` below decision prefix `root`, adding to
+    the per-case statistics dict `out`."""
     t0 = time.time()
-    out = {"case": None, "shard": shard, "paths": 0, "queries": 0, "solver_s": 0.0,
-           "labels": {}, "violations": [], "status": "exhausted", "functions": [],
-           "obligations": 0, "discharged": 0, "crossval": 0, "samples": [],
-           "second": {"checked": 0, "agree": 0}, "notes": {}, "nontrivial": 0,
-           "wall_s": 0.0}
+    core.set_width(case.width)
+    rng = random.Random(repr((seed, case.name, root)))
+    crossval_frac = opts.get("crossval", 1.0)
+    second_frac = opts.get("second", 0.0)
+    errors = out["errors"]
+    state = {}
+
+    def on_path(pr):
+        lab = pr.label if isinstance(pr.label, str) else repr(pr.label)
+        out["labels"][lab] = out["labels"].get(lab, 0) + 1
+        if pr.ndec >= 1:
+            out["nontrivial"] += 1
+        if len(out["samples"]) < 2 or (len(out["samples"]) < 5 and rng.random() < 0.02):
+            out["samples"].append({"case": case.name, "inputs": pr.values,
+                                   "outcome": lab, "decisions": pr.ndec})
+        if not (pr.violations or rng.random() < crossval_frac):
+            return
+        # concrete cross-validation on the real, un-shimmed code
+        inst = state["inst"]
+        inst.suspend()
+        try:
+            clabel, cobs, cviol = run_concrete(case, pr.values)
+        except core.ReplayMismatch as e:
+            errors.append("crossval: %s: %s inputs=%r" % (case.name, e, pr.values))
+            return
+        except Exception as e:
+            errors.append("crossval: concrete run of %s raised %r inputs=%r"
+                          % (case.name, e, pr.values))
+            return
+        finally:
+            inst.resume()
+        out["crossval"] += 1
+        clab = clabel if isinstance(clabel, str) else repr(clabel)
+        if clab != lab:
+            errors.append("crossval label mismatch in %s: symbolic %r concrete %r inputs=%r"
+                          % (case.name, lab, clab, pr.values))
+            return
+        so = [(n, _norm(v)) for n, v in pr.observed]
+        co = [(n, _norm(v)) for n, v in cobs]
+        if so != co:
+            diff = [(a, b) for a, b in zip(so, co) if a != b][:3]
+            errors.append("crossval observable mismatch in %s: (symbolic, concrete)=%r inputs=%r"
+                          % (case.name, diff or (so[-3:], co[-3:]), pr.values))
+
+    second_q = []
+
+    def smt_dump(text, expected):
+        if rng.random() < second_frac:
+            second_q.append((text, expected))
+
     try:
-        mod = importlib.import_module(modname)
-        case = mod.cases(tier)[cidx]
-        out["case"] = case.name
-        core.set_width(case.width)
-        rng = random.Random((seed, case.name, shard).__repr__())
-        coll = FnCollector()
-        coll.start()
-        crossval_frac = opts.get("crossval", 1.0)
-        second_frac = opts.get("second", 0.0)
-        errors = []
-
-        def on_path(pr, case=case):
-            lab = pr.label if isinstance(pr.label, str) else repr(pr.label)
-            out["labels"][lab] = out["labels"].get(lab, 0) + 1
-            if pr.ndec >= 1:
-                out["nontrivial"] += 1
-            if len(out["samples"]) < 3 or (len(out["samples"]) < 6 and rng.random() < 0.02):
-                out["samples"].append({"case": case.name, "inputs": pr.values,
-                                       "outcome": lab, "decisions": pr.ndec})
-            need = bool(pr.violations) or rng.random() < crossval_frac
-            if not need:
-                return
-            # concrete cross-validation on the real, un-shimmed code
-            inst = state["inst"]
-            inst.suspend()
-            try:
-                clabel, cobs, cviol = run_concrete(case, pr.values)
-            except core.ReplayMismatch as e:
-                errors.append("crossval: %s: %s inputs=%r" % (case.name, e, pr.values))
-                return
-            except Exception as e:
-                errors.append("crossval: concrete run of %s raised %r inputs=%r"
-                              % (case.name, e, pr.values))
-                return
-            finally:
-                inst.resume()
-            out["crossval"] += 1
-            clab = clabel if isinstance(clabel, str) else repr(clabel)
-            if clab != lab:
-                errors.append("crossval label mismatch in %s: symbolic %r concrete %r inputs=%r"
-                              % (case.name, lab, clab, pr.values))
-                return
-            so = [(n, _norm(v)) for n, v in pr.observed]
-            co = [(n, _norm(v)) for n, v in cobs]
-            if so != co:
-                errors.append("crossval observable mismatch in %s: symbolic %r concrete %r inputs=%r"
-                              % (case.name, so[:6], co[:6], pr.values))
-                return
-            sv = sorted(v.label for v in pr.violations)
-            cv = sorted(v.label for v in cviol)
-            if bool(sv) != bool(cv):
-                # the path's own model need not violate; violations are
-                # replayed separately with their own model
-                pass
-
-        second_q = []
-
-        def smt_dump(text, expected):
-            if rng.random() < second_frac:
-                second_q.append((text, expected))
-
-        state = {}
         with symbolic_mode(case) as inst:
             state["inst"] = inst
-            deadline = opts.get("deadline")
             ctx, status = core.explore(
-                lambda c: case.fn(c, **case.params),
-                shard=(shard, case.shards, case.shard_depth) if case.shards > 1 else None,
-                max_paths=case.max_paths, deadline=deadline, on_path=on_path,
+                lambda c: case.fn(c, **case.params), root=root, donate=donate,
+                max_paths=case.max_paths, deadline=opts.get("deadline"), on_path=on_path,
                 timeout_ms=case.timeout_ms,
                 smt_dump=smt_dump if second_frac > 0 else None)
-        coll.stop()
-        out["paths"] = ctx.paths
-        out["queries"] = ctx.queries
-        out["solver_s"] = ctx.solver_s
-        out["obligations"] = ctx.obligations
-        out["discharged"] = ctx.discharged
-        out["notes"] = ctx.notes
-        out["status"] = status
-        out["functions"] = sorted(coll.seen)
-        if errors:
+        out["paths"] += ctx.paths
+        out["queries"] += ctx.queries
+        out["solver_s"] += ctx.solver_s
+        out["obligations"] += ctx.obligations
+        out["discharged"] += ctx.discharged
+        for k, v in ctx.notes.items():
+            out["notes"][k] = out["notes"].get(k, 0) + v
+        if status != "exhausted" and out["status"] == "exhausted":
+            out["status"] = status
+        if errors and out["status"] == "exhausted":
             out["status"] = "engine: " + errors[0]
-            out["errors"] = errors[:5]
         # replay each violation concretely (own model), de-duplicated by key
-        seen = set()
+        seen = set(v["key"] for v in out["violations"])
         for v in ctx.violations:
             if v.key in seen:
                 continue
@@ -290,13 +279,65 @@ def run_task(task):
             out["second"]["checked"] += 1
             if r == expected:
                 out["second"]["agree"] += 1
-            else:
+            elif out["status"] == "exhausted":
                 out["status"] = "engine: second solver says %s, z3 said %s" % (r, expected)
     except BaseException as e:  # noqa
         out["status"] = "engine: %s" % "".join(
             traceback.format_exception(type(e), e, e.__traceback__))[-3000:]
-    out["wall_s"] = time.time() - t0
-    return out
+    out["wall_s"] += time.time() - t0
+    out["items"] += 1
+
+
+def worker_main(wid, nworkers, modname, tier, seed, opts, work_q, result_q, pending):
+    """Worker process: take (case index, prefix) items until none are pending
+    anywhere; donate parts of the local stack when the queue runs dry."""
+    import queue as _q
+    stats = {}
+    coll = FnCollector()
+    try:
+        mod = importlib.import_module(modname)
+        cases = mod.cases(tier)
+        coll.start()
+
+        def donate(stack):
+            # hand the oldest (shallowest = largest) prefixes to idle workers
+            try:
+                hungry = work_q.qsize() < nworkers
+            except NotImplementedError:
+                hungry = True
+            if not hungry:
+                return
+            n = max(1, len(stack) // 2)
+            give, stack[:] = stack[:n], stack[n:]
+            with pending.get_lock():
+                pending.value += len(give)
+            for pfx in give:
+                work_q.put((cur_case[0], pfx))
+
+        cur_case = [None]
+        while True:
+            try:
+                cidx, root = work_q.get(timeout=0.05)
+            except _q.Empty:
+                if pending.value <= 0:
+                    break
+                continue
+            cur_case[0] = cidx
+            case = cases[cidx]
+            out = stats.get(case.name)
+            if out is None:
+                out = stats[case.name] = _new_stats(case.name)
+            run_item(case, root, tier, seed, opts, out,
+                     donate=donate if nworkers > 1 else None)
+            with pending.get_lock():
+                pending.value -= 1
+    except BaseException as e:  # noqa
+        stats.setdefault("<worker>", _new_stats("<worker>"))["status"] = \
+            "engine: worker crashed: %r" % (e,)
+        with pending.get_lock():
+            pending.value = -10 ** 6
+    coll.stop()
+    result_q.put((wid, list(stats.values()), sorted(coll.seen)))
 
 
 # ---------------------------------------------------------------------------
@@ -333,28 +374,45 @@ def run_property(prop, modname, tier, seed, meta, jobs=None, budget_s=None):
         opts["crossval"] = float(os.environ["VERIF_CROSSVAL"])
     if budget_s:
         opts["deadline"] = t0 + budget_s
-    tasks = []
-    for i, c in enumerate(cases):
-        for s in range(c.shards):
-            tasks.append((modname, i, s, tier, seed, opts))
-    # biggest first is unknown; shuffle deterministically for balance
-    random.Random(seed).shuffle(tasks)
     jobs = jobs or int(os.environ.get("VERIF_JOBS", "0")) or min(16, os.cpu_count() or 1)
-    results = []
-    if jobs == 1 or len(tasks) == 1:
-        for t in tasks:
-            results.append(run_task(t))
-    else:
-        mp = multiprocessing.get_context("fork")
-        with mp.Pool(min(jobs, len(tasks)), maxtasksperchild=8) as pool:
-            for r in pool.imap_unordered(run_task, tasks):
-                results.append(r)
+    mp = multiprocessing.get_context("fork")
+    work_q, result_q = mp.Queue(), mp.Queue()
+    pending = mp.Value("i", len(cases))
+    order = sorted(range(len(cases)), key=lambda i: -getattr(cases[i], "weight", 1))
+    for i in order:
+        work_q.put((i, []))
+    procs = [mp.Process(target=worker_main,
+                        args=(w, jobs, modname, tier, seed, opts, work_q, result_q, pending))
+             for w in range(jobs)]
+    for p in procs:
+        p.start()
+    results, functions_all = [], set()
+    got = 0
+    import queue as _q
+    while got < jobs:
+        try:
+            wid, stats, fns = result_q.get(timeout=1.0)
+        except _q.Empty:
+            if all(not p.is_alive() for p in procs) and result_q.empty():
+                break
+            continue
+        got += 1
+        results.extend(stats)
+        functions_all.update(fns)
+    for p in procs:
+        p.join(timeout=10)
+        if p.is_alive():
+            p.terminate()
+    if got < jobs:
+        r = _new_stats("<runner>")
+        r["status"] = "engine: %d worker(s) died without reporting" % (jobs - got)
+        results.append(r)
     wall = time.time() - t0
 
     # ---- aggregate
     agg = {"paths": 0, "queries": 0, "solver_s": 0.0, "obligations": 0, "discharged": 0,
            "crossval": 0, "nontrivial": 0}
-    labels, functions, samples, notes = {}, set(), [], {}
+    labels, functions, samples, notes = {}, functions_all, [], {}
     second = {"checked": 0, "agree": 0}
     bad, violations, per_case = [], [], {}
     for r in results:
@@ -365,7 +423,6 @@ def run_property(prop, modname, tier, seed, meta, jobs=None, budget_s=None):
             labels[kk] = labels.get(kk, 0) + v
         for k, v in r.get("notes", {}).items():
             notes[k] = notes.get(k, 0) + v
-        functions.update(r["functions"])
         samples.extend(r["samples"])
         second["checked"] += r["second"]["checked"]
         second["agree"] += r["second"]["agree"]
@@ -374,14 +431,11 @@ def run_property(prop, modname, tier, seed, meta, jobs=None, budget_s=None):
         pc["wall_s"] = round(pc["wall_s"] + r["wall_s"], 2)
         pc["queries"] += r["queries"]
         if r["status"] != "exhausted":
-            bad.append((r["case"], r["shard"], r["status"]))
+            bad.append((r["case"], r["items"], r["status"]))
         violations.extend(r["violations"])
-        if r["paths"] == 0 and r["status"] == "exhausted" and \
-                cases[[c.name for c in cases].index(r["case"])].shards == 1:
-            bad.append((r["case"], r["shard"], "vacuous: no feasible path reached the end"))
     for c in cases:
-        if c.shards > 1 and per_case.get(c.name, {}).get("paths", 0) == 0:
-            bad.append((c.name, -1, "vacuous: no feasible path reached the end"))
+        if per_case.get(c.name, {}).get("paths", 0) == 0:
+            bad.append((c.name, 0, "vacuous: no feasible path reached the end of the harness"))
 
     # ---- classify violations
     known = load_known(prop)
